@@ -107,6 +107,14 @@ func vCmdBegin(outFlag string) {
 	vCmdDir, _ = os.MkdirTemp("", "vcmd")
 	os.Chdir(vCmdDir)
 	vCmdOutName = "out.dat"
+	// the output path may already hold an older, longer file
+	if n := vVal("cmd.oldlen"); n > 0 && n <= 1<<20 {
+		old := make([]byte, n)
+		for i := range old {
+			old[i] = 0xee
+		}
+		os.WriteFile(vCmdOutName, old, 0o644)
+	}
 	vCmdArgs = []string{"cmd", "-" + outFlag + "=" + vCmdOutName}
 	flag.CommandLine = flag.NewFlagSet("cmd", flag.ContinueOnError)
 }
